@@ -438,7 +438,7 @@ def _match(k: dict, rec: dict) -> bool:
     try:
         return bool(eval(pred, {"__builtins__": {"abs": abs, "len": len, "any": any, "all": all,
                                                   "min": min, "max": max, "str": str, "float": float,
-                                                  "isinstance": isinstance, "dict": dict, "list": list}},
+                                                  "isinstance": isinstance, "dict": dict, "list": list, "int": int, "set": set, "tuple": tuple, "sum": sum, "bool": bool, "round": round}},
                          {"inp": rec["input"], "what": rec["what"], "rec": rec}))
     except Exception:
         return False
